@@ -18,8 +18,8 @@ bytes; struct oscore_association_t in include/oscore/oscore_context.h) and the p
 
 The association also holds `recipient_ctx` (one context here), `sent_pdu` (Appendix B only) and `last_seen`
 (unused).  The SERVER side of the store — the request path of `coap_oscore_decrypt_pdu` (association created /
-refreshed only after the request has been decrypted successfully, fix 9631fdc) and the response path of
-`coap_oscore_new_pdu_encrypted_lkd` (`is_observe` forces the Partial IV, fix ae365ed) — is Model/OscoreSrv.lean;
+refreshed only after the request has been decrypted successfully, fix b3c6528) and the response path of
+`coap_oscore_new_pdu_encrypted_lkd` (`is_observe` forces the Partial IV, fix 155f0b4) — is Model/OscoreSrv.lean;
 neither fix touches the client-side code transcribed here.  Core Lean only.
 -/
 namespace Coap.M.Oscore
